@@ -21,7 +21,7 @@ ASSUMPTIONS = [
     "linprog = exact LP; LP round-off only through replay of dyadic witnesses (where must-True is required of the real code)",
 ]
 BOUNDS = {"quick": {"variables": "<=4", "terms": "<=4 per side", "alphabet": [-2, -1, 1, 2]}, "thorough": {"variables": "<=5", "terms": "<=5 per side", "alphabet": [-3, -2, -1, 1, 2, 3, 0.5]}}
-OPTS = {"quick": {"tier_budget_s": 200, "max_paths": 3000, "job_budget_s": 60, "witness_rate": 1.0, "max_pass_replays": 1500}, "thorough": {"tier_budget_s": 1800, "max_paths": 20000, "job_budget_s": 300, "max_pass_replays": 20000}}
+OPTS = {"quick": {"tier_budget_s": 200, "max_paths": 3000, "job_budget_s": 60, "witness_rate": 1.0, "max_pass_replays": 1500, "decimal_witness_rate": 0.5}, "thorough": {"tier_budget_s": 1800, "max_paths": 20000, "job_budget_s": 300, "max_pass_replays": 20000, "decimal_witness_rate": 0.5}}
 REACH = {"quick": ["True", "False", "IAE", "kind:reflexive", "kind:farkas-tight", "left-infeasible", "contract", "kind:contract:mismatch", "kind:contract:mismatch-roles"]}
 
 
